@@ -71,6 +71,11 @@ def resolve(oc: dict, to: dict) -> tuple[dict, list[dict]]:
     while d["is"] == "alias":
         chain.append(d)
         d = def_of(oc, d["target"])
+    if d["is"] == "inherit":
+        # `allOf: [{$ref: E}, {description}]`: a model that only inherits from the Enum model E; `__extract_inherited_enum` makes it an
+        # Enum class of its own with E's entries
+        t = def_of(oc, d["target"])
+        d = {**d, "type": t["type"], "values": t["values"]}
     return d, chain
 
 
@@ -138,6 +143,8 @@ def build_doc(oc: dict) -> dict:
     for d in oc["defs"]:
         if d["is"] == "enum":
             defs[key_of(oc, d)] = enum_schema(d)
+        elif d["is"] == "inherit":
+            defs[key_of(oc, d)] = {"allOf": [{"$ref": ref_to(oc, d["target"])}, {"description": "inherits"}]}
         else:
             s = target_schema(oc, {"def": d["target"]}, "ref")
             if "default" in d:
@@ -271,7 +278,7 @@ def check_ocase(ck: Check, camp, oc: dict) -> None:
             ck.fail({**cls0, "mechanism": "unparsable", "trigger": "none"}, oc, f"{rel} does not parse: {err}")
             return
     camp.distinct.add(json.dumps(oc, sort_keys=True, default=str))
-    enums_in: list[dict] = [d for d in oc["defs"] if d["is"] == "enum"]
+    enums_in: list[dict] = [resolve(oc, {"def": d["name"]})[0] for d in oc["defs"] if d["is"] in ("enum", "inherit")]
     enums_in += [resolve(oc, f["to"])[0] for f in oc["fields"] if "inline" in f["to"]]
     pkg = cd.Package(files, oc["model"])
     try:
@@ -441,6 +448,12 @@ def gen_ocase(rng: Rng, *, okind: str | None = None, combo: dict | None = None, 
             targets.append({"to": {"def": n}})
         else:
             targets.append({"to": {"inline": {"type": nty, "values": nvals}}})
+    # a model that only inherits from a (plain) named enum
+    plain_named = [d for d in defs if d["is"] == "enum" and None not in d["values"]]
+    if plain_named and names and rng.chance(1, 6) and not (dotted and opts.get("reuse_model")):
+        n = names.pop(0)
+        defs.append({"name": n, "module": enum_mod, "is": "inherit", "target": rng.choice(plain_named)["name"]})
+        targets.append({"to": {"def": n}})
     # alias definitions over the named enums
     enum_defs = [d for d in defs if d["is"] == "enum"]
     anames = list(ALIAS_NAMES)
@@ -536,6 +549,9 @@ def scope_shapes() -> list[tuple[str, list[dict], list[dict]]]:
                 [F("first", {"def": "Colour"}, default="q"), F("second", {"def": "Tint"}, default="p")]))
     out.append(("near:type", [E("Colour", "integer", [1, 2]), E("Tint", "string", ["1", "2"])],
                 [F("first", {"def": "Colour"}, default=1), F("second", {"def": "Tint"}, default="2")]))
+    out.append(("inherit", [E("Colour", "string", s2), {"name": "Tint", "module": [], "is": "inherit", "target": "Colour"}, A("Shade", "Tint", default="q")],
+                [F("first", {"def": "Tint"}, default="q"), F("second", {"def": "Colour"}, default="p"), F("third", {"def": "Shade"}),
+                 F("fourth", {"def": "Tint"}, shape="list", default=["p", "q"])]))
     out.append(("alias:chain", [E("Colour", "string", s2), A("Shade", "Colour", default="q"), A("Tone", "Shade")],
                 [F("first", {"def": "Tone"}), F("second", {"def": "Tone"}, default="p")]))
     out.append(("alias:two_aliases_one_enum", [E("Colour", "string", s2), A("Shade", "Colour", default="q"), A("Tone", "Colour", default="p")],
@@ -559,8 +575,10 @@ def scope_ocases(okinds: tuple = ("single",)) -> list[dict]:
                         # nullable enum of `shared` under --collapse-root-models are used from `app` — not part of the dotted layout
                         if (combo.get("reuse_model") and label.startswith(("dup:", "nullable:dup"))) or (combo.get("collapse_root_models") and label.startswith("nullable:")):
                             continue
+                        if combo.get("reuse_model") and label == "inherit":
+                            continue
                         for d in oc["defs"]:
-                            d["module"] = ["shared"] if d["is"] == "enum" else ["app"]
+                            d["module"] = ["shared"] if d["is"] in ("enum", "inherit") else ["app"]
                         oc["holder"] = {"name": "Holder", "module": ["app"], "at": "def", "pos": 99}
                     out.append(oc)
     return out
